@@ -888,7 +888,7 @@ class Models:
                 return c.I.fresh_int(c.st, 'usize', 'len', 0, ISIZE_MAX)
             return VInt(s.len, 'usize')
 
-        @reg('core::slice::<impl [T]>::is_empty')
+        @reg('core::slice::<impl [T]>::is_empty', 'core::str::<impl str>::is_empty')
         def sempty(c):
             s = M.as_slice(c.I, c.st, c.args[0])
             if s is None:
@@ -906,7 +906,8 @@ class Models:
                 out.append((s2, M.none(c.dty)))
             return out
 
-        @reg('core::slice::<impl [T]>::contains', 'core::slice::<impl [T]>::ends_with')
+        @reg('core::slice::<impl [T]>::contains', 'core::slice::<impl [T]>::ends_with', 'core::str::<impl str>::ends_with', 'core::str::<impl str>::contains',
+             'core::str::<impl str>::is_char_boundary', 'core::str::<impl str>::is_ascii', 'core::slice::ascii::<impl [u8]>::is_ascii')
         def spure(c):
             return c.I.unknown_bool()
 
@@ -920,6 +921,18 @@ class Models:
             for s2 in c.I.assume(c.st.copy(), ('cmp', 'le', pat.len, s.len), True):
                 off = s.off.add(pat.len) if c.c['decl'].endswith('strip_prefix') else s.off
                 out.append((s2, M.some(c.dty, VSlice(s.base, off, s.len.sub(pat.len), s.elem, s.ety))))
+            return out
+
+        @reg('std::char::methods::<impl char>::to_digit')
+        def to_digit(c):
+            radix = c.args[1]
+            lo, hi = c.st.num.rng(radix.form)
+            M.pcall(c.I, c.st, c.body, c.bbi, c.t, 'to_digit: radix outside 2..=36', 2 <= lo and hi <= 36, f"radix in [{lo}, {hi}]")
+            s2 = c.st.copy()
+            d = c.I.fresh_int(s2, 'u32', 'digit', 0, 35)
+            out = [(c.st.copy(), M.none(c.dty))]
+            for s3 in c.I.assume(s2, ('cmp', 'lt', d.form, radix.form), True):
+                out.append((s3, M.some(c.dty, d)))
             return out
 
         @reg('std::mem::swap')
@@ -1019,7 +1032,7 @@ class Models:
                 out.append((s2, M.none(c.dty)))
             return out
 
-        @reg('core::slice::<impl [T]>::starts_with')
+        @reg('core::slice::<impl [T]>::starts_with', 'core::str::<impl str>::starts_with')
         def sstarts(c):
             s = M.as_slice(c.I, c.st, c.args[0])
             n = M.as_slice(c.I, c.st, c.args[1])
